@@ -416,6 +416,49 @@ theorem draw_resizes_linked (dec : String → G) (cw : String → Nat) (rows col
   refine ⟨e1, per.flatten, hr1, ?_, ⟨lr.ready, lr.vis, dsim_hasVx lr.sim true, lr.alt⟩⟩
   simp only [Model.EmuDraw.draw, hsz, if_true, hrz, hper, bind, Except.bind]
 
+/-! ### "… and drawing the emulator into a host window of that size yields those same cells" -/
+
+open VaxisModel.Model.EmuDraw VaxisModel.Lemmas.C12Draw VaxisModel.Lemmas.EmuDraw in
+/-- **After every frame of every segment, `Draw` into a host window of that segment's size reproduces
+    the application's screen** (`draw_reproduces_screen` for the renderer as it is now, at the end of
+    any history with resizes): no resize happens, the `SetCell` calls are row by row exactly one per
+    glyph cell of the application's screen (`expectedC`), each carrying a cell that shows that glyph
+    and landing on the host cell with the same coordinates; the cursor shown in a focused window is the
+    application's cursor. -/
+theorem emu_draw_across_resizes (dec : String → G) (cw : String → Nat) (hsp : cw "20" = 1) (hd : dec "20" = [32])
+    (hemp : dec "" = []) (segs : List Seg) (rows cols : Nat) (s : HState) (e : Emu)
+    (hl : LinkedR dec cw s e rows cols) (hok : ∀ sg ∈ segs, SegOk dec cw sg)
+    (sg : Seg) (fi : FrameIn) (hsg : segs.getLast? = some sg) (hfi : sg.frames.getLast? = some fi) (focused : Bool) :
+    ∃ (e' : Emu) (per : List (List DrawCall)), runSegs dec cw s e segs = .ok e' ∧
+      draw true Model.Emu.Fixes.current e' sg.cols sg.rows focused =
+        .ok ({ e' with hasVx := true }, per.flatten, shownCursor true e' focused) ∧
+      per.length = sg.rows ∧
+      (∀ (k : Nat) (l : List DrawCall), per[k]? = some l →
+        ∃ drow, (Expected.expectedC cw emuCaps fi.next)[k]? = some drow ∧
+          (∀ call ∈ l, ∃ (j : Nat) (d : DCell), call.col = (j : Int) ∧ call.row = (k : Int) ∧ drow[j]? = some d ∧
+            d ≠ .cont ∧ HostRel dec d call.cell ∧
+            setCellChain sg.cols sg.rows [Win.root sg.cols sg.rows] call.col call.row = some ((j : Int), (k : Int))) ∧
+          (∀ (j : Nat) (d : DCell), drow[j]? = some d → d ≠ .cont → ∃ call ∈ l, call.col = (j : Int))) ∧
+      shownCursor true e' true = (if fi.cursor.visible then some (fi.cursor.col, fi.cursor.row) else none) := by
+  obtain ⟨e', hr, h⟩ := emu_shows_across_resizes dec cw hsp hd hemp segs rows cols s e hl hok
+  obtain ⟨hi, _, hs⟩ := h sg hsg
+  have hsh := hs fi hfi
+  have hsgok := hok sg (List.mem_of_getLast? hsg)
+  have dm : Lemmas.Emu.Dim sg.rows sg.cols := ⟨hsgok.1.2.2.1, hsgok.1.1, hsgok.1.2.2.2, hsgok.1.2.1⟩
+  have hrel := hsh.1
+  rw [Lemmas.RenderClip.expectedC_eq] at hrel
+  obtain ⟨per, h1, h2, h3⟩ := C12.draw_reproduces_screen dec cw (clipIn cw fi).next e' sg.rows sg.cols hi dm hrel focused
+  refine ⟨e', per, hr, h1, h2, ?_, ?_⟩
+  · rw [Lemmas.RenderClip.expectedC_eq]; exact h3
+  · have hfiok := hsgok.2.2 fi (List.mem_of_getLast? hfi)
+    have hsh' : Shows dec cw (clipIn cw fi) e' := by
+      unfold Shows
+      unfold ShowsC at hsh
+      rw [Lemmas.RenderClip.expectedC_eq] at hsh
+      exact hsh
+    exact C12.draw_shows_cursor dec cw (clipIn cw fi) e' sg.rows sg.cols hi hsh'
+      (fun hv => by have := (hfiok.1.2.2.2 hv).2.2; exact_mod_cast this)
+
 /-! ### the start state is the one the real start-up leaves; non-vacuity -/
 
 open VaxisModel.Model.C12Replies in
